@@ -1195,6 +1195,51 @@ pub fn run(ctx: &mut Ctx) {
                 ctx.seen("S7.self-signature-kinds", "direct-key(sign_key)");
                 v6_checks(ctx, &rep, &sk);
             }
+            // every other certificate-forming signature type through the low-level configuration: each is
+            // verified with its own verify function, then attached to the certificate, which must keep
+            // verifying (also after export and re-import)
+            let prim_pub = k.pk.primary_key.clone();
+            if let Some(uid) = sk.details.users.first().map(|u| u.id.clone()) {
+                for typ in [SignatureType::CertGeneric, SignatureType::CertPersona, SignatureType::CertCasual, SignatureType::CertPositive, SignatureType::CertRevocation] {
+                    let r = mk_config(&env, &k, typ, HashAlgorithm::Sha512, &mut rng, 1)
+                        .and_then(|c| c.sign_certification(&sk.primary_key, &prim_pub, &Password::empty(), pgp::types::Tag::UserId, &uid));
+                    if let Some(sig) = signed(ctx, &rep, "S7", r) {
+                        ok(ctx, &rep, "S7", "V6", sig.verify_certification(&prim_pub, pgp::types::Tag::UserId, &uid));
+                        ctx.seen("S7.self-signature-kinds", format!("certification-{:#04x}(sign_certification)", u8::from(typ)));
+                        let mut sk2 = sk.clone();
+                        sk2.details.users[0].signatures.push(sig);
+                        v6_checks(ctx, &rep, &sk2);
+                    }
+                }
+            }
+            {
+                let r = mk_config(&env, &k, SignatureType::KeyRevocation, HashAlgorithm::Sha512, &mut rng, 1)
+                    .and_then(|c| c.sign_key(&sk.primary_key, &Password::empty(), &prim_pub));
+                if let Some(sig) = signed(ctx, &rep, "S7", r) {
+                    ok(ctx, &rep, "S7", "V6", sig.verify_key(&prim_pub));
+                    ctx.seen("S7.self-signature-kinds", "key-revocation(sign_key)");
+                    let mut sk2 = sk.clone();
+                    sk2.details.revocation_signatures.push(sig);
+                    v6_checks(ctx, &rep, &sk2);
+                }
+            }
+            if let Some(sub) = sk.secret_subkeys.first().cloned() {
+                let sub_pub = sub.key.public_key().clone();
+                for typ in [SignatureType::SubkeyBinding, SignatureType::SubkeyRevocation] {
+                    let r = mk_config(&env, &k, typ, HashAlgorithm::Sha512, &mut rng, 1)
+                        .and_then(|c| c.sign_subkey_binding(&sk.primary_key, &prim_pub, &Password::empty(), &sub_pub));
+                    if let Some(sig) = signed(ctx, &rep, "S7", r) {
+                        ok(ctx, &rep, "S7", "V6", sig.verify_subkey_binding(&prim_pub, &sub_pub));
+                        ctx.seen("S7.self-signature-kinds", format!("subkey-{:#04x}(sign_subkey_binding)", u8::from(typ)));
+                        // an encryption subkey may carry a second binding / a revocation
+                        if !sub.signatures.iter().any(|g| g.key_flags().sign()) {
+                            let mut sk2 = sk.clone();
+                            sk2.secret_subkeys[0].signatures.push(sig);
+                            v6_checks(ctx, &rep, &sk2);
+                        }
+                    }
+                }
+            }
         });
         if let Err(pn) = r {
             ctx.violation(format!("C06/S7/panic/{}", pn.short_loc()), format!("panic: {} at {}; key {name}", pn.msg, pn.loc), replay);
